@@ -47,6 +47,10 @@ Executed(t, c) ==
          /\ t.bsid0 = CipherRow(c) /\ t.bsid1 = HashRow(c)
          /\ t.burst_eq = 1
          /\ t.abi = 0
+         \* further valid shapes of the same cell (DOCSIS+CRC32: cipher without CRC, CRC without cipher):
+         \* <<shape, job status, composition, burst status, burst = job>>
+         /\ \A i \in 1 .. Len(t.shapes) :
+               t.shapes[i][2] = 3 /\ t.shapes[i][3] = 0 /\ t.shapes[i][4] = 3 /\ t.shapes[i][5] = 1
     ELSE \* rejected: never processed, right error, buffers untouched
          /\ t.st = 4 /\ t.errno \in SuiteErrs(c)
          /\ t.stages = <<>>
